@@ -289,6 +289,18 @@ fn op_strategy() -> BoxedStrategy<OpDesc> {
             let m = results.iter().map(Vec::len).min().unwrap_or(0);
             (Just(results), spec_strategy(n, m, 2)).prop_map(|(results, spec)| OpDesc::Select { spec, results })
         }),
+        // populations many hundred times the tournament size, full of individuals that tie on their results but are
+        // different individuals: which of several equally good entrants wins must be decided by the generator alone
+        1 => (520usize..1400, 0usize..3, 1usize..5, any::<u64>()).prop_map(|(n, m, k, s)| {
+            let results = (0..n).map(|i| (0..m).map(|j| (crate::splitmix(s ^ ((i * 7 + j) as u64)) % 2) as i64).collect()).collect();
+            let spec = match s % 4 {
+                0 => Spec::Tournament(k),
+                1 => Spec::Erased(Box::new(Spec::Tournament(k))),
+                2 => Spec::Dyn(vec![(Spec::Tournament(k), 3), (Spec::Random, 1)]),
+                _ => Spec::Tournament(1 + k / 3),
+            };
+            OpDesc::Select { spec, results }
+        }),
         // many test cases / long inputs: whatever is buffered, chunked or cached beyond some size must not
         // make the outcome depend on anything but the arguments and the generator
         1 => (2usize..8, prop::sample::select(vec![65usize, 70, 130, 257]), any::<u64>()).prop_map(|(n, m, s)| {
